@@ -31,6 +31,8 @@ type RPCError struct {
 	Details []*anypb.Any
 	// RawGrpcMessage, when set, is sent verbatim as grpc-message by gRPC / gRPC-Web backends (hostile backends only).
 	RawGrpcMessage string
+	// PadDetails: gRPC / gRPC-Web backends send grpc-status-details-bin as padded base64 (allowed by the gRPC spec).
+	PadDetails bool
 }
 
 type BareHTTP struct {
@@ -46,9 +48,11 @@ type BackendScript struct {
 	Err        *RPCError       // terminal error (nil = OK)
 	ErrAfter   int             // messages sent before the error (capped to len(Msgs))
 	TrailersOnly bool          // gRPC / gRPC-Web: error with no messages goes into the headers
+	EndAfterCut bool           // gRPC: after CutAt stopped the body, still send the (successful) trailers
 	CompressEnd bool           // Connect stream / gRPC-Web: compress the end-of-stream (trailer) frame; Connect unary: compress the error body
 	Headers    http.Header
 	Trailers   http.Header
+	DeclareCase     int        // spelling of the names inside the Trailer declaration: 0 as set, 1 lower case, 2 upper case
 	DeclareTrailers bool       // announce trailers in the Trailer header instead of using http.TrailerPrefix
 	Bare       *BareHTTP       // bare HTTP failure instead of an RPC response
 	DeclLen    bool            // set Content-Length on un-enveloped responses
@@ -706,7 +710,11 @@ func grpcStatusInto(h http.Header, e *RPCError, prefix string) {
 	}
 	if len(e.Details) > 0 {
 		bin, _ := proto.Marshal(statusProto(e))
-		h[prefix+"Grpc-Status-Details-Bin"] = []string{base64.RawStdEncoding.EncodeToString(bin)}
+		enc := base64.RawStdEncoding
+		if e.PadDetails {
+			enc = base64.StdEncoding // receivers must accept padded and unpadded values
+		}
+		h[prefix+"Grpc-Status-Details-Bin"] = []string{enc.EncodeToString(bin)}
 	}
 }
 
@@ -789,6 +797,16 @@ func (b *Backend) respond(w http.ResponseWriter, r *http.Request) {
 			keys = append(keys, k)
 		}
 		keys = append(keys, "Grpc-Status", "Grpc-Message", "Grpc-Status-Details-Bin")
+		switch s.DeclareCase {
+		case 1: // HTTP/2 style
+			for i := range keys {
+				keys[i] = strings.ToLower(keys[i])
+			}
+		case 2:
+			for i := range keys {
+				keys[i] = strings.ToUpper(keys[i])
+			}
+		}
 		h.Set("Trailer", strings.Join(keys, ", "))
 	}
 	switch o.Proto {
@@ -818,7 +836,7 @@ func (b *Backend) respond(w http.ResponseWriter, r *http.Request) {
 		} else {
 			sw.write(frames())
 		}
-		if sw.stopped || (s.UseRaw && s.RawComplete && o.Proto != "grpc") {
+		if (sw.stopped && !(s.EndAfterCut && o.Proto == "grpc")) || (s.UseRaw && s.RawComplete && o.Proto != "grpc") {
 			return
 		}
 		if o.Proto == "grpc" {
